@@ -5,6 +5,7 @@
 #define _GNU_SOURCE
 #include "vpeer.h"
 #include "vs.h"
+#include "orderrace.h"
 #include <stdlib.h>
 #include <string.h>
 #include <unistd.h>
@@ -487,5 +488,11 @@ main(int argc, char **argv)
 	vx_note("alphabet", "%d letters: sub/unsub(sock|ctx, topic) recv recvbuf "
 	                    "prefnew pub(body); depth %d; 6 seeded start states",
 	    NAL, g_depth);
+	{
+		static const orc_arg OR[] = { { "C05", "pubsub", nng_pub0_open, nng_sub0_open, 1 }, { "C05", "xpub-xsub", nng_pub0_open_raw, nng_sub0_open_raw, 0 } };
+		for (int i = 0; i < 2; i++)
+			if (i == 0 || vx_is_thorough())
+				orc_explore_tiers(&OR[i]);
+	}
 	return vx_finish();
 }
